@@ -306,8 +306,9 @@ def run(ctx: Ctx) -> None:
     k = 3 if ctx.quick else 4
     names = list(ATOMS)
     items = []
+    core4 = ["a", "e'", "x01", "b1", "nib", "zero8"]   # length-4 sequences: over a core of the atoms (10^4 sequences x shapes x 24 orders took > 90 min)
     for L in range(1, k + 1):
-        for combo in itertools.product(names, repeat=L):
+        for combo in itertools.product(names if L < 4 else core4, repeat=L):
             items.append((combo, 2 if (ctx.quick or L == 4) else 3))
     results = pmap_tagged(work, items, chunk=8)
     seqs = shapes_n = outcomes = 0
